@@ -42,4 +42,18 @@ class TypeContext(dict[KeyT, ValueT], tp.Generic[ValueT]):
             return val
 
         ref = refs.forwardref(key)
-        return self[ref]
+        if ref in self:
+            return self[ref]
+        # A reference names its type from whichever module it was written in, which
+        #   need not be the module that defines the type (it may merely import it).
+        for other in self:
+            if isinstance(other, refs.ForwardRef) and _refers_to(other, key):
+                return self[other]
+        raise KeyError(ref)
+
+
+def _refers_to(ref: refs.ForwardRef, t: tp.Any) -> bool:
+    # A reference which can't be resolved (yet) names nothing.
+    with contextlib.suppress(Exception):
+        return refs.evaluate(ref) is t
+    return False
